@@ -1531,6 +1531,20 @@ func (e *Env) call(ex *ast.CallExpr) (SymVal, error) {
 			fmt.Fprintf(&c.sb, "(declare-fun %s ((Array Ref %s)) Int)\n", fn, srt)
 		}
 		return mkMath(app(fn, c.comp(e.st, locs[0].comp, srt))), nil
+	case "sameslice":
+		// sameslice(a, b): the two slice headers are identical (store, offset, length, capacity)
+		a, err := arg(0)
+		if err != nil {
+			return SymVal{}, err
+		}
+		b, err := arg(1)
+		if err != nil {
+			return SymVal{}, err
+		}
+		if a.K != KSlice || b.K != KSlice {
+			return SymVal{}, fmt.Errorf("sameslice needs two slices")
+		}
+		return mkBool(sAnd(sEq(a.Fs[0].S, b.Fs[0].S), sEq(a.Fs[1].S, b.Fs[1].S), sEq(a.Fs[2].S, b.Fs[2].S), sEq(a.Fs[3].S, b.Fs[3].S))), nil
 	case "rootof":
 		x, err := arg(0)
 		if err != nil {
